@@ -504,6 +504,20 @@ class C07Structure(Monitor):
             cur = list(d.current_population)
             self.snap[d.id] = (cur, {id(i) for i in cur}, {ind_key(i) for i in cur}, d.is_active, d)
 
+    def on_generator(self, g, out, tree):
+        # coverage: candidates of *different* parents of one level with exactly the same fitness (plateau objectives)
+        by_level = {}
+        for d, c in out.items():
+            for ind in c.individuals:
+                by_level.setdefault(d.level, []).append((float(ind.fitness), d.id))
+        for lvl, items in by_level.items():
+            seen = {}
+            for f, did in items:
+                if f in seen and seen[f] != did:
+                    self.cov("round_with_tied_candidates_from_different_parents")
+                    return
+                seen.setdefault(f, did)
+
     def on_sprout_seeds(self, tree, seeds):
         self.pending = []
         gen_kind = self.ctx.desc["sprout"].get("gen", {}).get("k")
